@@ -74,3 +74,30 @@ fn str_line_start_before(s: &str, end: usize) -> (r: usize)
     requires end <= s.spec_bytes().len(), boundary(s@, end as int),
     ensures r == line_start_before(s.spec_bytes(), end as int), r <= end, boundary(s@, r as int),
 { s[..end].rfind('\n').map(|i| i + 1).unwrap_or(0) }
+
+// ---- F45: the gutter of the lines of the secondary ("defined here") window.  `Fmt` stands for `fmt::Formatter`; what is recorded of every line
+// written is the column of its gutter bar `|` (R12: a `writeln!` with a `{..:>W$} | ..` format becomes a call that names W) ----
+#[verifier::external_body]
+pub struct Fmt { _p: () }
+#[verifier::external_body]
+pub struct FmtErrorC { _p: () }
+impl Fmt { pub uninterp spec fn bars(&self) -> Seq<int>; }
+/// `writeln!(f, "{x:>W$} | ...")`: a line whose gutter is W columns wide
+#[verifier::external_body]
+fn fmt_gutter_line(f: &mut Fmt, gutter: usize) -> (r: Result<(), FmtErrorC>)
+    ensures r is Ok ==> final(f).bars() == old(f).bars().push(gutter as int + 1),
+{ unimplemented!() }
+#[verifier::external_body]
+fn str_is_empty_c(s: &str) -> (r: bool) ensures r == (s@.len() == 0), { unimplemented!() }
+
+// ---- F46: the annotation label ----
+/// "contains no C0 control other than \n / \t, no DEL, no C1 control" (term_clean over the bytes, proved for the sanitiser in unit `snippet`)
+pub uninterp spec fn sanitized(s: Seq<char>) -> bool;
+/// `sanitize_terminal_snippet_preserve_len(msg.to_string())`
+#[verifier::external_body]
+fn sanitize_label(msg: &str) -> (r: String) ensures sanitized(r@), { unimplemented!() }
+/// `AnnotationKind::Primary.span(a..b).label(text)` (annotate-snippets): the label is printed as it is
+#[verifier::external_body]
+fn primary_annotation(a: usize, b: usize, text: &str)
+    requires sanitized(text@),
+{ unimplemented!() }
